@@ -177,6 +177,22 @@ func C08() int {
 				faults = append(faults, fault{i, sut.AgentCmd{"op": "stream", "input_b64": b64(in.data), "chunk": ch, "fail_read_at": k}, "read", fmt.Sprintf("read #%d fails (chunk %d)", k, ch), false, false, k})
 			}
 		}
+		// a source that fails ONCE and then reports end of input, or carries on (a buffered layer in
+		// front of the reader hands an error over exactly once): the failure must still be reported
+		for _, ch := range []int{4096, 37 + i, 2, 1} {
+			nreads := len(in.data)/ch + 2
+			if ch <= 2 && len(in.data) > 2500 {
+				continue
+			}
+			for k := 1; k <= nreads; k++ {
+				if k > 12 && k%(nreads/8+1) != 0 {
+					continue
+				}
+				for _, mode := range []string{"once-eof", "once-continue"} {
+					faults = append(faults, fault{i, sut.AgentCmd{"op": "stream", "input_b64": b64(in.data), "chunk": ch, "fail_read_at": k, "fail_mode": mode}, "read", fmt.Sprintf("read #%d fails once, then %s (chunk %d)", k, mode, ch), false, false, k})
+				}
+			}
+		}
 		if len(in.data) <= 6000 {
 			for off := 1; off <= len(in.data); off++ {
 				faults = append(faults, fault{i, sut.AgentCmd{"op": "stream", "input_b64": b64(in.data), "fail_read_off": off}, "read", fmt.Sprintf("read fails after %d bytes", off), false, false, 0})
